@@ -588,9 +588,10 @@ def equality (ne : Bool) (lhs rhs : Opd) : Out :=
   match lhs, rhs with
   | .prim .null, .prim .null => ⟨[], .ok (.bool (true != ne))⟩
   | .prim .null, _ => ⟨[], .ok (.bool (false != ne))⟩
-  -- a `null` on the right does not bypass the left operand's `@==` / `@!=` / `equal`: like every
-  -- other operand kind it is handed to the overload (documented behaviour; the implementation's
-  -- `(_, Null)` arm comes first: finding F-C17-9); without an overload the arms below give "unequal"
+  -- `(Null, _) | (_, Null)` comes before the overloads: `obj == null` never dispatches (deliberate
+  -- upstream behaviour pinned by crates/runtime/tests/object_tests.rs equal_null_lhs; against the
+  -- letter of the property — finding F-C17-9, mirrored here)
+  | _, .prim .null => ⟨[], .ok (.bool (false != ne))⟩
   | .prim a, .prim b =>
     if a == b && builtinEqKind a then ⟨[], .ok .builtin⟩ else ⟨[], .ok (.bool (false != ne))⟩
   | .prim _, _ => ⟨[], .ok (.bool (false != ne))⟩   -- no dispatch on the right operand
